@@ -17,6 +17,15 @@ def seeds_ok(col, pp, vidx):
             col.add(monitors.check_plate_observers(pp, subs, o, f"seed {n}", case))
         else:
             col.add(monitors.check_container_observers(pp, subs, o, f"seed {n}", case))
+    # a world in which substances that share a name (twins) sit next to each other, in containers and in the wells of one plate
+    subs, world = e1.build(pp, vidx, alphabets.W_TWIN, alphabets.twin_seed() + [alphabets.T('T', ['R', "(1, 1)"], '40 uL')])
+    for n, o in sorted(world.items()):
+        if e1.is_plate(o):
+            col.add(monitors.check_plate_observers(pp, subs, o, f"twin world {n}", case))
+            for w in o.wells.flatten():
+                col.add(monitors.check_container_observers(pp, subs, w, f"twin world {n}/{w.name}", case))
+        else:
+            col.add(monitors.check_container_observers(pp, subs, o, f"twin world {n}", case))
 
 
 def run(col):
